@@ -309,6 +309,17 @@ static void group()
     // (operand digits stay below 16: the results, not the operands, are to land on the 16-digit rung)
     corners_row<VF_PART - 3000, Fam8, 1, 7, 8, 9, 15>();
     corners_row<VF_PART - 3000, Fam16, 1, 7, 8, 9, 15>();
+#if VF_PART == 3008
+    // UNSIGNED operands that fill their narrow storage word (8 digits in uint8_t, 16 in uint16_t): the operation must
+    // not be carried out in the integrally promoted int
+    prog_corners<16, false, 16, false, Fam16>();
+    prog_corners<16, false, 15, true, Fam16>();
+    prog_corners<15, true, 16, false, Fam16>();
+    prog_corners<16, false, 8, false, Fam16>();
+    prog_corners<8, false, 8, false, Fam8>();
+    prog_corners<8, false, 7, true, Fam8>();
+    prog_corners<8, false, 16, false, Fam16>();
+#endif
 #elif VF_PART >= 2000
     constexpr int D = VF_PART - 2000;
     prog_builtin<D, false, Fam32, i8>();
